@@ -6,8 +6,8 @@
    (the fields mikeyToContext / contextToMikey read and write); extended index = ROC * 2^16 + SEQ.
    The cipher theorems carry the premises [ks_ok ks] and [mac_ok mac] (ideal authenticated cipher). *)
 From GVL Require Import NList.
-From GVG Require Import Consts.
-From GV_secure Require Import Model ProofsRoc Proofs Cipher.
+From GVG Require Import Consts Kern.
+From GV_secure Require Import Model ProofsRoc Proofs Cipher Bridge.
 Open Scope N_scope.
 
 (* ---------------- key exchange ---------------- *)
@@ -244,6 +244,36 @@ Theorem C17_secure_latch_delivers_exactly_genuine : forall secure g pkts l,
   Forall2 (fun p e => e = EDelivered <-> snd p = true) pkts (filter_run secure l pkts).
 Proof. exact latch_delivers_exactly_genuine. Qed.
 Print Assumptions C17_secure_latch_delivers_exactly_genuine.
+
+(* ---- BRIDGE (tools/go2coq) ----
+   The roll-over-counter arithmetic of pion/srtp v3 (the dependency version pinned by /repo/go.mod) TRANSLATED from its
+   Go source on this run is the arithmetic of the model: next_roc IS srtpSSRCState.nextRolloverCount written with the
+   translated kernels (seq / localRoc / localSeq extraction, the three range tests, localRoc-1 / localRoc+1 with uint32
+   wrap-around, the three differences, the overflow test against maxROC), for every index below 2^48 and every 16-bit
+   sequence number; update_roc IS updateRolloverCount without a remote ROC (s.index |= seq on first use, s.index +=
+   uint64(difference) when difference > 0); the key-length test that precedes context creation in mikeyToContext is
+   len(KeyData) != srtpKeyLength.  The named constants are instantiated with GVG.Consts. *)
+Theorem C17_secure_kernels_are_the_code :
+  (forall s seq, idx48 (ss_index s) -> seq16 seq -> next_roc s seq = next_roc_k s seq) /\
+  (forall s seq diff, idx48 (ss_index s) -> seq16 seq -> (-9223372036854775808 <= diff < 4294967296)%Z ->
+     update_roc s seq diff = update_roc_k s seq diff) /\
+  (forall n, k_sec_key_len_bad (Z.of_N n) (Z.of_N sec_key_length) = negb (n =? sec_key_length)) /\
+  (forall key mki ssrcs starts, 16 <= nlen key ->
+     k_sec_key_len_bad (Z.of_N (nlen key)) (Z.of_N sec_key_length) = true -> initialize key mki ssrcs starts = IErr).
+Proof. exact secure_kernels_are_the_code. Qed.
+Print Assumptions C17_secure_kernels_are_the_code.
+
+(* the translated kernels compute: index 0x0001_FFFE, packet 2 -> forward wrap: ROC 2, difference +4; index 0x0002_0001,
+   packet 65535 -> a late packet of the previous cycle: ROC 1, difference -2; ROC 0 - 1 wraps to 2^32-1 *)
+Example C17_example_kernels :
+  k_sec_roc_local_roc 131070 = 1%Z /\ k_sec_roc_local_seq 131070 65536 = 65534%Z /\
+  k_sec_roc_fwd 65534 32768 2 = true /\ k_sec_roc_inc 1 = 2%Z /\ k_sec_roc_diff_fwd 2 65534 65536 = 4%Z /\
+  k_sec_roc_low_half 1 32768 = true /\ k_sec_roc_back 65535 1 32768 = true /\ k_sec_roc_dec 2 = 1%Z /\
+  k_sec_roc_diff_back 65535 1 65536 = (-2)%Z /\ k_sec_roc_dec 0 = 4294967295%Z /\
+  k_sec_roc_overflow 0 4294967295 4294967295 = true /\ k_sec_roc_overflow 0 0 4294967295 = false /\
+  k_sec_upd_first 131072 7 = 131079%Z /\ k_sec_upd_add 131079 4 = 131083%Z /\ k_sec_upd_pos 0 = false /\
+  k_sec_key_len_bad 30 (Z.of_N sec_key_length) = false /\ k_sec_key_len_bad 16 (Z.of_N sec_key_length) = true.
+Proof. vm_compute. repeat split. Qed.
 
 (* non-vacuity: the empty latch satisfies the invariant; the history that silenced the old code
    (fixed finding ssrc-latch-before-auth) now delivers every genuine packet *)
